@@ -248,6 +248,8 @@ FeatTable == <<
   F("s.size.a5",           "s", {"docGrid", "pgMar", "pgSz"}, "all", {}),
   F("s.size.a4",           "s", {"docGrid", "pgMar", "pgSz"}, "all", {}),
   F("s.size.custom",       "s", {"docGrid", "pgMar", "pgSz"}, "all", {}),
+  F("s.size.custom.wide",  "s", {"docGrid", "pgMar", "pgSz"}, "all", {}),   \* custom page wider than tall, portrait
+  F("s.size.custom.square","s", {"docGrid", "pgMar", "pgSz"}, "all", {}),
   F("s.orient.landscape",  "s", {"docGrid", "pgMar", "pgSz"}, "all", {}),
   F("s.orient.portrait",   "s", {"docGrid", "pgMar", "pgSz"}, "all", {}),
   F("s.margins",           "s", {"docGrid", "pgMar", "pgSz"}, "all", {}),
